@@ -427,7 +427,14 @@ func (an *Analysis) createType(typ types.Type, ctx context) Type {
 			return str
 		} else {
 			// otherwise, analyze the underlying type
-			under := an.handleType(typ.Underlying(), ctx).(AnonymousType)
+			if _, isPointer := typ.Underlying().(*types.Pointer); isPointer {
+				// a Pointer is not an AnonymousType, and 'type P *P' would recurse for ever
+				panic("named pointer types are not supported: " + typ.String())
+			}
+			under, ok := an.handleType(typ.Underlying(), ctx).(AnonymousType)
+			if !ok {
+				panic("unsupported named type " + typ.String())
+			}
 			return &Named{name: name, Underlying: under}
 		}
 	}
